@@ -346,6 +346,9 @@ pub fn growth_seeds(thorough: bool) -> Vec<(u16, String)> {
         // freed space present
         (3, "r3x100+s1x64".into()),
         (4, "r2x5000+s1x64".into()),
+        // freed regular sectors (holding old data) and a directory that is exactly full
+        (3, "r1x5000+s3x0".into()),
+        (4, "r1x9000+s31x0".into()),
         // just below / across the 110th FAT sector = first DIFAT sector (V3)
         (3, "b7100000".into()),
         (3, "b7200000".into()),
@@ -610,6 +613,25 @@ fn c12(tier: &str, thorough: bool) -> i32 {
             ctx.add("faults_delivered", st.faults_delivered);
         }
     }
+    // a file whose FAT spans two sectors (V3) / whose tables are read in several steps: faults while open loads them
+    for v in [3u16, 4] {
+        let base = match crate::e4::readonly_base_large(v) {
+            Ok(b) => b,
+            Err(e) => {
+                ctx.report(crate::report::Violation { class: "machinery".into(), sig: "robase-large".into(), msg: e, replay: json!(null) });
+                continue;
+            }
+        };
+        for (name, max_buf, steps) in crate::e4::readonly_workloads_large() {
+            let case = crate::e4::FaultCase { generated: false, with_interrupted: true, workload: name.clone(), version: v, max_buf, steps, plan: vec![], kinds: vec![CallKind::Read, CallKind::Seek], read_only: true };
+            let st = crate::e4::explore(ctx, &case, Some(&base), &[CallKind::Read, CallKind::Seek], crate::e4::Pairs::None);
+            ctx.note(format!("v{} {}: fault positions={} runs={} underlying calls executed={} faults delivered={}", v, name, st.positions, st.runs, st.calls, st.faults_delivered));
+            runs += st.runs;
+            calls += st.calls;
+            ctx.add("fault_positions", st.positions);
+            ctx.add("faults_delivered", st.faults_delivered);
+        }
+    }
     // generated workloads: every sequence of reads / fill_buf / seeks of the depth on each stream and buffer size
     {
         use rayon::prelude::*;
@@ -688,7 +710,7 @@ fn c13(tier: &str, thorough: bool) -> i32 {
                 p += st.positions;
                 d += st.faults_delivered;
             }
-            ctx.note(format!("v{} generated workloads (3 starting states x every sequence of {} steps over 12 step kinds): workloads={} fault positions={} runs={} underlying calls executed={} faults delivered={}", v, depth, gen.len(), p, r, c, d));
+            ctx.note(format!("v{} generated workloads (4 starting states x every sequence of {} steps over 14 step kinds): workloads={} fault positions={} runs={} underlying calls executed={} faults delivered={}", v, depth, gen.len(), p, r, c, d));
             runs += r;
             calls += c;
             ctx.add("fault_positions", p);
@@ -871,7 +893,7 @@ fn c09(tier: &str, thorough: bool) -> i32 {
             add(crate::e1n::coexistence(ctx, v, &few, 5), &format!("v{} coexistence k=5 over {} names", v, few.len()), ctx);
         } else {
             // quick: all ordered triples over a 22-name subset that keeps every class of name, all ordered pairs over everything
-            let sub: Vec<String> = names.iter().enumerate().filter(|(i, _)| ![1usize, 4, 6, 10, 14, 18, 19, 21, 23, 25, 27, 28, 29, 30, 31, 33, 34, 39, 40, 41, 42].contains(i)).map(|(_, n)| n.clone()).collect();
+            let sub: Vec<String> = names.iter().enumerate().filter(|(i, _)| ![1usize, 4, 6, 10, 14, 18, 19, 21, 23, 25, 27, 28, 29, 30, 31, 33, 34, 39, 40, 41, 42, 44, 45].contains(i)).map(|(_, n)| n.clone()).collect();
             add(crate::e1n::coexistence(ctx, v, &sub, 3), &format!("v{} coexistence k=3 over {} names", v, sub.len()), ctx);
             add(crate::e1n::coexistence(ctx, v, &names, 2), &format!("v{} coexistence k=2 over {} names", v, names.len()), ctx);
             if v == 3 {
@@ -1338,7 +1360,7 @@ pub fn replay(path: &str) -> i32 {
                     return 2;
                 }
             };
-            let base = if c.read_only { crate::e4::readonly_base(c.version).ok() } else { None };
+            let base = if c.read_only { if c.workload.starts_with("two FAT sectors") { crate::e4::readonly_base_large(c.version).ok() } else { crate::e4::readonly_base(c.version).ok() } } else { None };
             println!("replaying workload {:?} v{} with plan {:?}", c.workload, c.version, c.plan);
             let r = crate::e4::run_case(&c, base.as_ref(), None);
             for (i, res) in &r.results {
